@@ -19,8 +19,13 @@ accounting layer of piquasso (api/simulator.py, api/result.py), independently of
 import contextlib
 
 
-def _owned_passive_answer(ctl, name, a, kw):
-    from mc.choice import multiset_alternatives
+_LAW_CACHE = {}
+
+
+def _passive_law(name, a, kw, cache=False):
+    """(sorted outcomes, probabilities) of what a lossless passive sampler entry point is asked to draw from: the
+    law of the (post-selected) state of the call computed by mc/refmodel/projref.py.  Outcomes are tuples on the
+    requested original modes (generate_marginal_samples) or on all remaining modes (generate_samples)."""
     from mc.core import HarnessError
     from mc.refmodel import projref as R
 
@@ -31,16 +36,37 @@ def _owned_passive_answer(ctl, name, a, kw):
     inp = tuple(int(x) for x in kw["input"])
     U = kw["interferometer"]
     D = len(inp)
-    shots = int(kw["shots"])
     ps_modes, ps_counts = kw["postselect_data"][0], kw["postselect_data"][1]
+    ps_modes = tuple(int(m) for m in ps_modes)
+    ps_counts = tuple(int(c) for c in ps_counts)
+    req = tuple(int(m) for m in kw["modes"]) if name == "generate_marginal_samples" else None
+    key = None
+    if cache:
+        import numpy as np
+
+        key = (name, inp, np.asarray(U, dtype=complex).tobytes(), ps_modes, ps_counts, req)
+        if key in _LAW_CACHE:
+            return _LAW_CACHE[key]
     st = R.apply_linear(R.Pure(tuple(range(D)), {inp: 1.0}), tuple(range(D)), U)
     if len(ps_modes):
-        st, _ = R.project(st, tuple(int(m) for m in ps_modes), tuple(int(c) for c in ps_counts), normalise=True)
-    modes = tuple(int(m) for m in kw["modes"]) if name == "generate_marginal_samples" else st.modes
+        st, _ = R.project(st, ps_modes, ps_counts, normalise=True)
+    modes = req if req is not None else st.modes
     law = R.marginal_law(st, modes)
     keys = sorted(k for k, p in law.items() if p > 1e-12)
     tot = sum(law[k] for k in keys)
     probs = [law[k] / tot for k in keys]
+    if cache:
+        if len(_LAW_CACHE) > 4096:
+            _LAW_CACHE.clear()
+        _LAW_CACHE[key] = (keys, probs)
+    return keys, probs
+
+
+def _owned_passive_answer(ctl, name, a, kw):
+    from mc.choice import multiset_alternatives
+
+    keys, probs = _passive_law(name, a, kw)
+    shots = int(kw["shots"])
     if shots == 1:
         return [keys[ctl.choose(probs, label="owned." + name)]]
     alts = multiset_alternatives(probs, shots, ctl.max_alternatives)
@@ -114,4 +140,67 @@ def recording(ctl, passive="real"):
             setattr(pss, n, fn)
         # the ControlledRandom subclass is private to this owned_randomness context; restoring keeps a second
         # `recording` in the same context from stacking wrappers
+        rnd_cls.choices = orig_choices
+
+
+@contextlib.contextmanager
+def forcing(ctl, policy, draws):
+    """Must be entered INSIDE `owned_randomness(ctl, ...)`.  Every categorical draw of the measurement layer -- the
+    `Config._random.choices(population, weights, k)` of the Fock-space simulators and the four passive sampler entry
+    points -- is ANSWERED BY THE HARNESS without branching: `policy(call_index, n_support, k)` returns the list of
+    `k` indices into the sorted support (outcomes of probability > 1e-9) that the draw returns, in that order.  One
+    execution = one path; which multisets are dictated is the caller's enumeration (C03 family "budget": the
+    (k, N) lattice).  Every draw is appended to `draws` as a dict (index, k, support, probs, answer)."""
+    import random as _random
+
+    from mc.core import HarnessError
+    from piquasso._simulators.passive import simulation_steps as pss
+
+    rnd_cls = _random.Random
+    if not hasattr(rnd_cls, "_ctl"):
+        raise HarnessError("HARNESS-SETUP c03_own.forcing must be used inside choice.owned_randomness")
+    orig_choices = rnd_cls.choices
+
+    def answer(support, probs, k, seam):
+        ci = len(draws)
+        idx = list(policy(ci, len(support), k))
+        if len(idx) != k or any(not (0 <= i < len(support)) for i in idx):
+            raise HarnessError("HARNESS-SETUP forcing policy returned %r for k=%d over %d outcomes" % (idx[:8], k, len(support)))
+        out = [support[i] for i in idx]
+        draws.append({"index": ci, "seam": seam, "k": k, "support": list(support), "probs": list(probs), "answer": out})
+        return out
+
+    def choices(self, population, weights=None, *, cum_weights=None, k=1):
+        ctl._require_active("random.Random.choices (forced)")
+        population = [tuple(int(x) for x in p) for p in population]
+        if weights is None or cum_weights is not None:
+            raise HarnessError("HARNESS-SETUP forced categorical draw without explicit weights")
+        w = [float(x) for x in weights]
+        tot = sum(w)
+        if not tot > 0:
+            raise ValueError("Total of weights must be greater than zero")
+        pairs = sorted((p, x / tot) for p, x in zip(population, w) if x / tot > 1e-9)
+        return answer([p for p, _ in pairs], [x for _, x in pairs], int(k), "random.Random.choices")
+
+    rnd_cls.choices = choices
+    saved = {}
+
+    def wrap(name):
+        saved[name] = getattr(pss, name)
+
+        def wrapped(*a, **kw):
+            ctl._require_active("passive sampler %s (forced)" % name)
+            keys, probs = _passive_law(name, a, kw, cache=True)
+            pairs = [(k_, p) for k_, p in zip(keys, probs) if p > 1e-9]
+            return answer([k_ for k_, _ in pairs], [p for _, p in pairs], int(kw["shots"]), name)
+
+        setattr(pss, name, wrapped)
+
+    for n in ("generate_samples", "generate_lossy_samples", "generate_marginal_samples", "generate_lossy_and_partially_distinguishable_samples"):
+        wrap(n)
+    try:
+        yield
+    finally:
+        for n, fn in saved.items():
+            setattr(pss, n, fn)
         rnd_cls.choices = orig_choices
